@@ -7,6 +7,7 @@ mod ext;
 mod hnd;
 mod meta;
 mod mgr;
+mod stats;
 mod sys;
 mod url;
 mod util;
@@ -30,6 +31,7 @@ fn main() {
         "conn" => c06::run(&lines),
         "url" => url::run(&lines),
         "sys" => sys::run(&lines),
+        "stats" => stats::run(&lines),
         other => {
             eprintln!("unknown property {}", other);
             std::process::exit(2);
